@@ -411,7 +411,7 @@ def main():
     chk.assumptions = ['the generator computes the expected tree while it writes the stylesheet; the reference interpreter only gives a second opinion (counted, not decisive)',
                        'an excluded namespace is "needed" on an element iff the element name or one of its attributes is in it']
     chk.ensure('plain', 'xvdrv')
-    n = 20000 if chk.tier == 'quick' else 1500000
+    n = 60000 if chk.tier == 'quick' else 1500000
     chk.run_cases('c14', 'case', range(n))
     chk.finish(min_nontrivial=100, required_stats=('trees_equal_expected', 'feature_lre', 'feature_copy', 'feature_copy-of', 'feature_attr-ns-xmlns', 'feature_attr-ns-xml'))
 
